@@ -5,6 +5,7 @@ package main
 
 import (
 	"fmt"
+	"go/token"
 	"go/types"
 	"math/big"
 	"math/rand"
@@ -130,50 +131,51 @@ type Engine struct {
 	entryIdx   int
 
 	// per-path state
-	globals     map[*ssa.Global]*Value
-	nondets     []nondetRec
-	auxCount    int
-	gors        []*Gor
-	cur         *Gor
-	multi       bool
-	preempts    int
-	steps       int64
-	budget      int64
-	depth       int
-	opaqueSeq   int
-	cells       map[any]*cellMeta
-	mutexes     map[*Value]*mutexState
-	rws         map[*Value]*rwState
-	wgs         map[*Value]*wgState
-	atomics     map[*Value]*atomicState
-	raceOn      bool
-	maxGors     int
-	observes    []string
-	clock       int64
-	fnIDs       map[*ssa.Function]uint64
-	symNames    map[string]Value // type key -> symbolic reflect name
-	docSeq      int
-	extErrs     map[string]Value
-	timeLocs    map[string]*Value
-	pathCover   map[string]bool
-	onceDone    map[*Value]bool
-	syncMaps    map[*Value]*Map
-	schedLog    []schedEv
-	concrete    bool // conformance mode: random concrete inputs, no solver
-	rng         *rand.Rand
-	ctrace      []string // assertion / observation trace of a conformance run
-	pointLog    []string
-	pointTrace  bool
-	siteCache   map[string]bool
-	pkgDir      string
-	decided     map[*Term]bool
-	concretized map[*Term]*big.Int
-	usedVars    map[string]bool
-	noNumStr    bool
-	ptrIDs      map[*Value]uint64
-	initSet     map[*ssa.Package]bool
-	rtypePtr    types.Type
-	stepCtr     int64
+	globals      map[*ssa.Global]*Value
+	nondets      []nondetRec
+	auxCount     int
+	gors         []*Gor
+	cur          *Gor
+	multi        bool
+	preempts     int
+	steps        int64
+	budget       int64
+	depth        int
+	opaqueSeq    int
+	cells        map[any]*cellMeta
+	mutexes      map[*Value]*mutexState
+	rws          map[*Value]*rwState
+	wgs          map[*Value]*wgState
+	atomics      map[*Value]*atomicState
+	raceOn       bool
+	maxGors      int
+	observes     []string
+	clock        int64
+	fnIDs        map[*ssa.Function]uint64
+	symNames     map[string]Value // type key -> symbolic reflect name
+	docSeq       int
+	extErrs      map[string]Value
+	timeLocs     map[string]*Value
+	pathCover    map[string]bool
+	onceDone     map[*Value]bool
+	syncMaps     map[*Value]*Map
+	schedLog     []schedEv
+	concrete     bool // conformance mode: random concrete inputs, no solver
+	rng          *rand.Rand
+	ctrace       []string // assertion / observation trace of a conformance run
+	pointLog     []string
+	pointTrace   bool
+	siteCache    map[string]bool
+	sitePosCache map[token.Pos]bool
+	pkgDir       string
+	decided      map[*Term]bool
+	concretized  map[*Term]*big.Int
+	usedVars     map[string]bool
+	noNumStr     bool
+	ptrIDs       map[*Value]uint64
+	initSet      map[*ssa.Package]bool
+	rtypePtr     types.Type
+	stepCtr      int64
 
 	// path end plumbing
 	pathEnd  chan struct{}
@@ -1167,9 +1169,27 @@ func (e *Engine) noteStub(name string) {
 	e.stubsHit[name]++
 }
 
+// encodedName caches, per function, the name under which it is counted in the
+// evidence ("" = not counted: outside the module under test or a harness function).
+var encodedName sync.Map // *ssa.Function -> string
+
 func (e *Engine) noteEncoded(fn *ssa.Function) {
-	if fn.Pkg == nil && fn.Origin() == nil && fn.Parent() == nil {
+	if n, ok := encodedName.Load(fn); ok {
+		if s := n.(string); s != "" {
+			e.encodedFns[s]++
+		}
 		return
+	}
+	n := e.encodedNameOf(fn)
+	encodedName.Store(fn, n)
+	if n != "" {
+		e.encodedFns[n]++
+	}
+}
+
+func (e *Engine) encodedNameOf(fn *ssa.Function) string {
+	if fn.Pkg == nil && fn.Origin() == nil && fn.Parent() == nil {
+		return ""
 	}
 	p := fn.Pkg
 	if p == nil && fn.Origin() != nil {
@@ -1182,7 +1202,7 @@ func (e *Engine) noteEncoded(fn *ssa.Function) {
 		}
 	}
 	if p == nil || !strings.HasPrefix(p.Pkg.Path(), "github.com/jilio/ebu") {
-		return
+		return ""
 	}
 	name := funcKey(fn)
 	if fn.Parent() != nil {
@@ -1192,10 +1212,10 @@ func (e *Engine) noteEncoded(fn *ssa.Function) {
 	if pos := fn.Pos(); pos.IsValid() {
 		file := e.prog.Fset.Position(pos).Filename
 		if strings.Contains(file, "zz_verif_") {
-			return
+			return ""
 		}
 	}
-	e.encodedFns[name]++
+	return name
 }
 
 func sortedKeys[V any](m map[string]V) []string {
